@@ -358,6 +358,11 @@ func rulesC12(c *Ctx) {
 						if c.httpStatusIn(sp, n) == 400 {
 							status = true
 						}
+						for _, call := range sp.CallsIn(n, c.P.LookupFuncObj(pM, "", "writeJSONRPCError"), false) {
+							if st, ok := sp.ConstInt(call.Args[1]); ok && st == 400 {
+								status = true // the helper that writes status and JSON-RPC error in one go
+							}
+						}
 						ast.Inspect(n, func(x ast.Node) bool {
 							if id, ok := x.(*ast.Ident); ok && sp.ObjOf(id) == c.Obj(pM, "CodeHeaderMismatch") {
 								code = true
@@ -535,7 +540,7 @@ func rulesC12(c *Ctx) {
 		c.Need(len(st) == 1, "SSEHandler: session.ServeHTTP")
 		addrSSE, _ := typeAssertVars(sse, "net", "Addr")
 		c.gateScenario(sse, "sse:loopback-listener-foreign-Host", anyOf(loopOf(sse, triFalse)...)(sse), st, []int64{403}, "loopback-bound listener, non-loopback Host")
-		c.gateScenario(sse, "sse:wrong-content-type", anyOf(debugFlagOff(), cmpPath("Request.Method", token.EQL, triTrue), callArgMentions("IsLoopback", addrSSE, triFalse), cmpObj(sse.VarFromCallNamed("ParseMediaType", 0), token.NEQ, triTrue))(sse), st, []int64{415}, "POST Content-Type is not application/json")
+		c.gateScenario(sse, "sse:wrong-content-type", anyOf(debugFlagOff(), cmpPath("Request.Method", token.EQL, triTrue), callArgMentions("IsLoopback", addrSSE, triFalse), cmpObj(sse.VarFromCallNamed("ParseMediaType", 0), token.NEQ, triTrue), cmpIs("baseMediaType", token.NEQ, triTrue))(sse), st, []int64{415}, "POST Content-Type is not application/json")
 	})
 
 	c.Rule("R-C12-2", "the server validates exactly the mirror headers the client sets (Mcp-Method, Mcp-Name for the same methods, Mcp-Param-* from the same annotations)", func() {
